@@ -384,3 +384,13 @@ PROPS["C04"]["explanation"] += " The shapes' transform() clauses of unit pairs (
 # the scored ones: the serde glue of the parameter cells (W01/2 narrowed them to f32 on the way out)
 KANI["k_serde_f64"]["props"] = sorted(set(KANI["k_serde_f64"]["props"]) | {"C01"})
 PROPS["C01"]["kani"] = list(PROPS["C01"].get("kani", [])) + ["k_serde_f64"]
+# C06 ("... or the input if none was accepted") presupposes that building the handles leaves the parameters as they are: the frame part of
+# the handle harnesses (X06/2 normalised the angle inside get_basis)
+for _h in ("k_site_basis", "k_cell_dof"):
+    KANI[_h]["props"] = sorted(set(KANI[_h]["props"]) | {"C06"})
+PROPS["C06"]["kani"] = list(PROPS["C06"].get("kani", [])) + ["k_site_basis", "k_cell_dof"]
+PROPS["C06"]["explanation"] += " Also: building the handles (get_degrees_of_freedom / get_basis) leaves every parameter bit-identical (Kani k_cell_dof, k_site_basis)."
+# C13 and C03 speak of the potential the tool was asked for: the entry point passing the LJ shape to the LJ state is main.label (X13/2 sent
+# `circle --potential LJ` to the hard-disc model)
+PROPS["C13"]["units"] = list(PROPS["C13"]["units"]) + ["cli"]
+PROPS["C03"]["units"] = list(PROPS["C03"]["units"]) + (["cli"] if "cli" not in PROPS["C03"]["units"] else [])
